@@ -1,36 +1,47 @@
-(* C15 — precedence for the repaired code with the binding side condition discharged: the variable BindFlagToEnv binds
-   for a flag key IS the variable AutomaticEnv consults for the structure key with that flag key. *)
+(* C15 — precedence with the binding side condition discharged: the variable BindFlagToEnv binds for a flag key IS the
+   variable AutomaticEnv consults for the structure key with that flag key.  Every lemma names the facts it needs. *)
 From Coq Require Import List ZArith Bool.
 Import ListNotations.
 From GU Require Import C15.Model C15.Proofs C15.ProofsNames.
 Local Open Scope Z_scope.
 
-Lemma ad_bound_holds w k n :
-  lookup (flagkey fixed (w_prefix w) k) (bound_envs fixed w) = Some n -> n = autoenv (w_prefix w) k.
+(* facts behind "the bound variable is the automatic variable": spelling as expected, no prefix stripping on structure keys,
+   AutomaticEnv() switched on *)
+Definition bind_facts_ok (f : facts) : Prop :=
+  kf f = expected_kf /\ l_link_strips_prefix (lf f) = false /\ l_automatic_env (lf f) = true.
+
+Lemma ad_bound_holds f w k n : bind_facts_ok f ->
+  lookup (flagkey f (w_prefix w) k) (bound_envs f w) = Some n -> getenv f w n = autoget f w k.
 Proof.
-  unfold bound_envs. induction (w_flags w) as [|[[[ev t] d] s] l IH]; simpl; [intros; discriminate|].
+  intros [HK [HS HA]]. unfold bound_envs. induction (w_flags w) as [|[[[ev t] d] s] l IH]; simpl; [intros; discriminate|].
   destruct (str_eqb _ _) eqn:E; auto.
-  intros H. inversion H; subst. apply str_eqb_eq in E. apply bound_env_is_auto_env_l.
-  unfold flagkey. simpl v_strip. cbv iota. unfold flagkey_of_short. now rewrite E.
+  intros H. inversion H; subst. apply str_eqb_eq in E.
+  unfold autoget. rewrite HA. f_equal. apply bound_env_is_auto_env_l; auto.
 Qed.
 
 (* nothing named like an enclosing path of the key (or of its private flag key) is set / bound *)
-Record unshadowed (w : world) (k : str) : Prop := {
-  us_k : env_shadow w k = false;
-  us_fk : env_shadow w (flagkey fixed (w_prefix w) k) = false;
-  us_bf : flat_shadow (flagkey fixed (w_prefix w) k) (map fst (bound_flags w)) = false;
-  us_be : flat_shadow (flagkey fixed (w_prefix w) k) (map fst (bound_envs fixed w)) = false;
-  us_private : getenv w (autoenv (w_prefix w) (flagkey fixed (w_prefix w) k)) = None;
+Record unshadowed (f : facts) (w : world) (k : str) : Prop := {
+  us_k : env_shadow f w k = false;
+  us_fk : env_shadow f w (flagkey f (w_prefix w) k) = false;
+  us_bf : flat_shadow (flagkey f (w_prefix w) k) (map fst (bound_flags f w)) = false;
+  us_be : flat_shadow (flagkey f (w_prefix w) k) (map fst (bound_envs f w)) = false;
+  us_private : autoget f w (flagkey f (w_prefix w) k) = None;
 }.
 
-Lemma unshadowed_adequate w k : unshadowed w k -> adequate fixed w k.
-Proof. intros [A B C D E]. constructor; auto. apply ad_bound_holds. Qed.
+Lemma unshadowed_adequate f w k : bind_facts_ok f -> unshadowed f w k -> adequate f w k.
+Proof. intros B [A1 A2 A3 A4 A5]. constructor; auto. intros n. now apply ad_bound_holds. Qed.
 
-Lemma load_precedence_fixed_l w sc k t d :
+Lemma load_precedence_fixed_l f w sc k t d :
+  link_facts_ok f = true -> bind_facts_ok f ->
   NoDup (map fst (leaves [] sc)) -> In (k, (t, d)) (leaves [] sc) ->
-  is_flagkey k = false -> unshadowed w k ->
-  final_val fixed w sc k = Some (spec_val fixed w k d).
+  is_flagkey f k = false -> unshadowed f w k ->
+  final_val f w sc k = Some (spec_val f w k d).
 Proof. intros. eapply load_precedence_l; eauto using unshadowed_adequate. Qed.
+
+(* an empty variable counts as not set exactly when AllowEmptyEnv(false) *)
+Lemma empty_env_unset_l f w name :
+  l_allow_empty_env (lf f) = false -> lookup name (w_environ w) = Some (VStr []) -> getenv f w name = None.
+Proof. intros H L. unfold getenv. now rewrite L, H. Qed.
 
 (* a top-level key (no "." in it) has no enclosing path: the first side condition is vacuous for depth-1 fields *)
 Lemma split_aux_nodot cur s : nodot s = true -> split_aux DOT cur s = [rev cur ++ s].
@@ -40,7 +51,7 @@ Proof.
   - simpl in H. apply andb_prop in H. destruct H as [A B]. apply negb_true_iff in A. rewrite A.
     rewrite IH; auto. simpl. now rewrite <- app_assoc.
 Qed.
-Lemma top_level_unshadowed w k : nodot k = true -> env_shadow w k = false.
+Lemma top_level_unshadowed f w k : nodot k = true -> env_shadow f w k = false.
 Proof.
   intros H. unfold env_shadow, ancestors, split. rewrite split_aux_nodot; auto.
 Qed.
